@@ -416,6 +416,28 @@ def run_extra(ctx):
                 # one worker, several files (any --readers): every file's matches in the file's line order
                 # (theorem single_worker_file_order); lines of different files may interleave
                 viol("cli-filter-file-order", case=case, cmd=" ".join(cmd[1:]), cwd=d)
+            # ---- filter --line: "<file> <number>: " in front of every match (theorem filter_line_prefix) - the prefix is
+            # Match.Source / Match.LineNumber as they travelled through readers, batches and workers
+            if (w, b, r) != combos[0] and rnd.intn(2) == 0:
+                cmd = base + ["filter", "-l"] + args + par + files
+                try:
+                    p = subprocess.run(cmd, cwd=d, stdout=subprocess.PIPE, stderr=subprocess.PIPE, timeout=60)
+                except subprocess.TimeoutExpired:
+                    viol("cli-filter-line-hang", case=case, cmd=" ".join(cmd[1:]))
+                    continue
+                runs += 1
+                got = p.stdout.split(b"\n")
+                got = got[:-1] if got and got[-1] == b"" else got
+                want = []
+                fm = dict(kv.split("=", 1) for kv in ans.split()[1:])["matches"]
+                for mt in ([] if fm == "." else fm.split(",")):
+                    q = mt.split(":")
+                    want.append(b"f%04d %d: " % (int(q[0]), int(q[1])) + unhx(q[3]))
+                if sorted(got) != sorted(want):
+                    extra = collections.Counter(got) - collections.Counter(want)
+                    missing = collections.Counter(want) - collections.Counter(got)
+                    viol("cli-filter-line-prefix", case=case, cmd=" ".join(cmd[1:]), cwd=d,
+                         unexpected=[k.hex() for k in list(extra)[:3]], missing=[k.hex() for k in list(missing)[:3]])
             # ---- histo (same classification, keys counted)
             if (w, b, r) == combos[0] or rnd.intn(2) == 0:
                 out_csv = os.path.join(d, "h.csv")
